@@ -37,7 +37,7 @@ TReset == /\ IsEvent("Reset")
           /\ px' = [phase |-> "start", icpt |-> FALSE, meta |-> Meta0]
           /\ fromQ' = <<>> /\ toQ' = <<>> /\ mf' = NoFlow
           /\ hb' = [e \in Events |-> 0] /\ ap' = [e \in Events |-> 0] /\ handled' = {}
-          /\ fixed' = [browser |-> FALSE, rinj |-> FALSE, preempted |-> FALSE]
+          /\ fixed' = [browser |-> FALSE, rinj |-> FALSE, preempted |-> FALSE, recap |-> FALSE]
           /\ out' = [n |-> "init", exc |-> FALSE, res |-> "ok"]
           /\ calls' = 0 /\ closed' = {} /\ dq' = <<>> /\ tid' = Rec.tid /\ broken' = FALSE
 \* {"ev":"InterceptRequest","browser":b,"hdr":b,"q":[event type, E(meta of the queued state)]}
